@@ -72,9 +72,10 @@ Record quirks := mk_quirks {
   q_unreg_obj_trusts_stale_id : bool;    (* unregister(obj) removes whatever is registered under obj._pyroId *)
   q_force_keeps_displaced_marks : bool;  (* register(.., force=True) leaves the displaced object's marks *)
   q_weak_double_register : bool;         (* duplicate test compares the weakref with the object *)
-  q_finalizer_unregisters_id : bool }.   (* the finalizer of a weak registration unregisters the bare id *)
-Definition quirks_none := mk_quirks false false false false false.
-Definition quirks_all := mk_quirks true true true true true.
+  q_finalizer_unregisters_id : bool;     (* the finalizer of a weak registration unregisters the bare id *)
+  q_uri_trusts_stale_id : bool }.        (* uriFor(obj)/proxyFor(obj) only test that obj._pyroId is a registered id *)
+Definition quirks_none := mk_quirks false false false false false false.
+Definition quirks_all := mk_quirks true true true true true true.
 
 (* register's objectId argument: None / "" -> generated (uuid); the daemon's reserved name;
    another string; a truthy non-string.  (Registering explicitly under a string that equals a
@@ -183,9 +184,13 @@ Definition register (q : quirks) (s : state) (t : target) (r : rid) (force weak 
        RUri i)
   end.
 
-Definition uri_obj (s : state) (t : target) : result :=
+(* uriFor(obj) / proxyFor(obj): the id the object remembers, provided the registry entry under it IS the object *)
+Definition uri_obj (q : quirks) (s : state) (t : target) : result :=
   match pid s t with
-  | Some i => if mem i (reg s) then RUri i else RErr EDaemonError
+  | Some i => match lookup i (reg s) with
+              | Some e => if holds e t || q_uri_trusts_stale_id q then RUri i else RErr EDaemonError
+              | None => RErr EDaemonError
+              end
   | None => RErr EDaemonError
   end.
 
@@ -208,11 +213,11 @@ Definition gc (q : quirks) (s : state) (o : nat) : state * result :=
             (filter (fun p => negb (Nat.eqb (fst p) o)) (fins s1)) (ngen s1),
    RGc true).
 
-Definition do_return (s : state) (o : nat) : result :=
+Definition do_return (q : quirks) (s : state) (o : nat) : result :=
   if pd s (PObj o) then
     match pid s (PObj o) with
     | Some i => match lookup i (reg s) with
-                | Some e => RProxy i (e_tgt e)
+                | Some e => if holds e (PObj o) || q_uri_trusts_stale_id q then RProxy i (e_tgt e) else RErr EDaemonError
                 | None => RErr EDaemonError
                 end
     | None => RErr EDaemonError
@@ -225,12 +230,12 @@ Definition step (q : quirks) (s : state) (e : event) : state * result :=
   | UnregObj t => unreg_obj q s t
   | UnregId i => (unreg_id q s i, ROk)
   | UnregNone => (s, RErr EValueError)
-  | UriObj t => (s, uri_obj s t)
+  | UriObj t => (s, uri_obj q s t)
   | UriId i => (s, RUri i)
-  | ProxyObj t => (s, uri_obj s t)
+  | ProxyObj t => (s, uri_obj q s t)
   | ProxyId i => (s, if mem i (reg s) then RUri i else RErr EDaemonError)
   | Call i => (s, match lookup i (reg s) with Some e => RReached (e_tgt e) | None => RErr EUnknownObject end)
-  | Return o => (s, do_return s o)
+  | Return o => (s, do_return q s o)
   | Gc o => gc q s o
   | Registered => (s, RIds (map fst (reg s)))
   end.
